@@ -89,6 +89,26 @@ def _component_matches(f):
     return out
 
 
+def _arm_components(body):
+    """Component variants named by an arm's own code (bodies of virtually inlined callees excluded: what a helper does
+    with the value it is handed is not what the arm contributes), and whether the arm calls such a helper."""
+    made, helper = [], False
+    stack = [body]
+    while stack:
+        n = stack.pop()
+        if isinstance(n, dict):
+            if n.get("k") == "Path" and COMPONENT in (norm(n.get("def")) or ""):
+                made.append(norm(n["def"]).split("::")[-1])
+            for key, v in n.items():
+                if key == "inl":
+                    helper = True
+                elif isinstance(v, (dict, list)):
+                    stack.append(v)
+        elif isinstance(n, list):
+            stack.extend(n)
+    return sorted(made), helper
+
+
 def _vec_ops(body):
     """methods applied to a Vec receiver below `body`"""
     ops = []
@@ -346,10 +366,11 @@ def r20b(P, R):
         if i is None:
             R.undecided("R20-b", "ups-table:Normal", "no arm for Normal", loc=loc)
         else:
-            made = [norm(y.get("def") or "") for y in subnodes(table["arms"][i]["body"]) if y.get("k") == "Path" and COMPONENT in (norm(y.get("def")) or "")]
-            made = [x.split("::")[-1] for x in made]
+            made, through_helper = _arm_components(table["arms"][i]["body"])
             if made == ["ParentDir"]:
                 R.holds("R20-b", "ups-table:Normal", "a remaining directory of `from` contributes `..`")
+            elif not made and through_helper:
+                R.undecided("R20-b", "ups-table:Normal", "what a remaining directory of `from` contributes is decided inside a helper", loc=loc)
             elif not made:
                 R.violated("R20-b", "ups-table:Normal", "a remaining directory of `from` contributes nothing: the result does not climb "
                            "out of `from`'s directory", loc=loc)
@@ -358,7 +379,7 @@ def r20b(P, R):
         for v in ("RootDir", "Prefix"):
             i = first_match(table, v)
             if i is not None:
-                made = [norm(y.get("def") or "").split("::")[-1] for y in subnodes(table["arms"][i]["body"]) if y.get("k") == "Path" and COMPONENT in (norm(y.get("def")) or "")]
+                made, _ = _arm_components(table["arms"][i]["body"])
                 R.check("R20-b", "ups-table:" + v, "ParentDir" not in made, "%s contributes no `..`" % v,
                         "a %s component of `from` is turned into `..`" % v, loc=loc)
     # (6) ups first, then the rest of `to`
